@@ -628,13 +628,13 @@ package tally
 //@ pred scopeWF(s *scope) { s != nil && s.sanitizer != nil && s.counters != nil && s.gauges != nil && s.timers != nil && s.histograms != nil && s.bucketCache != nil && s.done != nil && (s.reporter != nil ==> same(s.baseReporter, iface2(s.reporter.tag, s.reporter.pay))) }
 
 //@ lock scope.cm self s protects counters, countersSlice
-//@   property C09, C05
+//@   property C09, C05, C01
 //@   inv @entries_non_nil s.counters != nil && (forall k string :: k in s.counters ==> s.counters[k] != nil)
 //@   inv @slice_entries_reportable forall i int :: 0 <= i && i < len(s.countersSlice) ==> s.countersSlice[i] != nil && (s.cachedReporter != nil ==> s.countersSlice[i].cachedCount != nil)
 //@   guar @live_entries_never_replaced !s.closed ==> (forall k string :: old(k in s.counters) ==> k in s.counters && s.counters[k] == old(s.counters[k]))
 
 //@ lock scope.gm self s protects gauges, gaugesSlice
-//@   property C09, C05
+//@   property C09, C05, C02
 //@   inv @entries_non_nil s.gauges != nil && (forall k string :: k in s.gauges ==> s.gauges[k] != nil)
 //@   inv @slice_entries_reportable forall i int :: 0 <= i && i < len(s.gaugesSlice) ==> s.gaugesSlice[i] != nil && (s.cachedReporter != nil ==> s.gaugesSlice[i].cachedGauge != nil)
 //@   guar @live_entries_never_replaced !s.closed ==> (forall k string :: old(k in s.gauges) ==> k in s.gauges && s.gauges[k] == old(s.gauges[k]))
@@ -667,7 +667,7 @@ package tally
 //@   ensures @quiet quiet()
 
 //@ func (*scope).Counter
-//@   property C09, C05, C04, C06
+//@   property C09, C05, C04, C06, C01
 //@   emits
 //@   allocs
 //@   requires scopeWF(s)
@@ -686,7 +686,7 @@ package tally
 //@   ensures @quiet quiet()
 
 //@ func (*scope).Gauge
-//@   property C09, C05, C04, C06
+//@   property C09, C05, C04, C06, C02
 //@   emits
 //@   allocs
 //@   requires scopeWF(s)
